@@ -5,6 +5,7 @@
   random / exhaustive operation sequences.
 -/
 import DropletsVerif.Model.Coll
+import DropletsVerif.Model.Stats
 import Mathlib.Tactic
 
 namespace DV.C20
@@ -374,5 +375,266 @@ example :
     let s := (run [.newDrop ⟨1, 2, 3⟩, .newEm, .emAppend 0 0 true false, .emGet 0 0, .setVar 0 9,
                    .newTc, .tcAppend 0 0 none true]).1
     s.vars = [0, 1] ∧ s.heap.map (·.radius) = [9, 3, 3, 3] ∧ s.tcs = [([0], [2])] := by decide
+
+end DV.C20
+
+/-! ### summary queries (Model/Stats.lean): definitions, independence of the member order, nearest-time lookup -/
+
+namespace DV.C20
+open DV.Stats
+
+theorem foldl_add (xs : List ℚ) (a : ℚ) : xs.foldl (· + ·) a = a + xs.sum := by
+  induction xs generalizing a with
+  | nil => simp
+  | cons x xs ih => simp only [List.foldl_cons, List.sum_cons, ih]; ring
+
+theorem sum_eq (xs : List ℚ) : DV.Stats.sum xs = xs.sum := by
+  unfold DV.Stats.sum; rw [foldl_add]; ring
+
+/-- **count, mean and spread do not depend on the order of the members** -/
+theorem mean_perm {xs ys : List ℚ} (h : xs.Perm ys) : mean xs = mean ys := by
+  unfold mean; rw [sum_eq, sum_eq, h.sum_eq, h.length_eq]
+
+theorem variance_perm {xs ys : List ℚ} (h : xs.Perm ys) : variance xs = variance ys := by
+  unfold variance
+  rw [sum_eq, sum_eq, mean_perm h, h.length_eq]
+  congr 1
+  exact (h.map _).sum_eq
+
+theorem select_perm (b : Bool) {xs ys : List ℚ} (h : xs.Perm ys) : (select b xs).Perm (select b ys) := by
+  unfold select; split
+  · exact h
+  · exact h.filter _
+
+/-- the vanished droplets (radius 0) are exactly what `incl_vanished = False` leaves out -/
+theorem select_spec (rs : List ℚ) (x : ℚ) : x ∈ select false rs ↔ x ∈ rs ∧ 0 < x := by
+  unfold select; simp
+
+theorem weightedWidth_perm {xs ys : List (ℚ × ℚ)} (h : xs.Perm ys) : weightedWidth xs = weightedWidth ys := by
+  unfold weightedWidth
+  simp only [sum_eq]
+  rw [(h.map _).sum_eq, (h.map (fun p : ℚ × ℚ => p.1 * p.2)).sum_eq]
+
+/-- definition of the area-weighted width -/
+theorem weightedWidth_def (ws : List (ℚ × ℚ)) (h : (ws.map (·.2)).sum ≠ 0) :
+    weightedWidth ws = some ((ws.map fun p => p.1 * p.2).sum / (ws.map (·.2)).sum) := by
+  unfold weightedWidth
+  simp only [sum_eq]
+  rw [if_neg (by simpa using h)]
+
+theorem foldl_min_spec (xs : List ℚ) (a : ℚ) :
+    let m := xs.foldl (fun a b => if b < a then b else a) a
+    (m = a ∨ m ∈ xs) ∧ m ≤ a ∧ ∀ x ∈ xs, m ≤ x := by
+  induction xs generalizing a with
+  | nil => simp
+  | cons x xs ih =>
+    simp only [List.foldl_cons]
+    by_cases hx : x < a
+    · simp only [if_pos hx]
+      obtain ⟨h1, h2, h3⟩ := ih x
+      refine ⟨?_, le_trans h2 hx.le, ?_⟩
+      · rcases h1 with h | h
+        · exact Or.inr (by rw [h]; exact List.mem_cons_self)
+        · exact Or.inr (List.mem_cons_of_mem _ h)
+      · intro y hy
+        rcases List.mem_cons.mp hy with rfl | hy
+        · exact h2
+        · exact h3 y hy
+    · simp only [if_neg hx]
+      obtain ⟨h1, h2, h3⟩ := ih a
+      refine ⟨?_, h2, ?_⟩
+      · rcases h1 with h | h
+        · exact Or.inl h
+        · exact Or.inr (List.mem_cons_of_mem _ h)
+      · intro y hy
+        rcases List.mem_cons.mp hy with rfl | hy
+        · exact le_trans h2 (not_lt.mp hx)
+        · exact h3 y hy
+
+/-- the lower end of the bounding box is the smallest member -/
+theorem minList_spec (l : List ℚ) (m : ℚ) (h : minList l = some m) : m ∈ l ∧ ∀ x ∈ l, m ≤ x := by
+  cases l with
+  | nil => simp [minList] at h
+  | cons a xs =>
+    simp only [minList, Option.some.injEq] at h
+    obtain ⟨h1, h2, h3⟩ := foldl_min_spec xs a
+    rw [h] at h1 h2 h3
+    constructor
+    · rcases h1 with h | h
+      · rw [h]; exact List.mem_cons_self
+      · exact List.mem_cons_of_mem _ h
+    · intro x hx
+      rcases List.mem_cons.mp hx with rfl | hx
+      · exact h2
+      · exact h3 x hx
+
+theorem minList_isSome (l : List ℚ) (h : l ≠ []) : ∃ m, minList l = some m := by
+  cases l with
+  | nil => exact absurd rfl h
+  | cons a xs => exact ⟨_, rfl⟩
+
+theorem minList_perm {xs ys : List ℚ} (h : xs.Perm ys) : minList xs = minList ys := by
+  by_cases hx : xs = []
+  · subst hx; rw [h.nil_eq]
+  · have hy : ys ≠ [] := fun hy => hx (by rw [hy] at h; exact h.eq_nil)
+    obtain ⟨m1, e1⟩ := minList_isSome xs hx
+    obtain ⟨m2, e2⟩ := minList_isSome ys hy
+    obtain ⟨a1, a2⟩ := minList_spec xs m1 e1
+    obtain ⟨b1, b2⟩ := minList_spec ys m2 e2
+    have : m1 = m2 := le_antisymm (a2 m2 (h.mem_iff.mpr b1)) (b2 m1 (h.mem_iff.mp a1))
+    rw [e1, e2, this]
+
+theorem foldl_max_spec (xs : List ℚ) (a : ℚ) :
+    let m := xs.foldl (fun a b => if a < b then b else a) a
+    (m = a ∨ m ∈ xs) ∧ a ≤ m ∧ ∀ x ∈ xs, x ≤ m := by
+  induction xs generalizing a with
+  | nil => simp
+  | cons x xs ih =>
+    simp only [List.foldl_cons]
+    by_cases hx : a < x
+    · simp only [if_pos hx]
+      obtain ⟨h1, h2, h3⟩ := ih x
+      refine ⟨?_, le_trans hx.le h2, ?_⟩
+      · rcases h1 with h | h
+        · exact Or.inr (by rw [h]; exact List.mem_cons_self)
+        · exact Or.inr (List.mem_cons_of_mem _ h)
+      · intro y hy
+        rcases List.mem_cons.mp hy with rfl | hy
+        · exact h2
+        · exact h3 y hy
+    · simp only [if_neg hx]
+      obtain ⟨h1, h2, h3⟩ := ih a
+      refine ⟨?_, h2, ?_⟩
+      · rcases h1 with h | h
+        · exact Or.inl h
+        · exact Or.inr (List.mem_cons_of_mem _ h)
+      · intro y hy
+        rcases List.mem_cons.mp hy with rfl | hy
+        · exact le_trans (not_lt.mp hx) h2
+        · exact h3 y hy
+
+theorem maxList_spec (l : List ℚ) (m : ℚ) (h : maxList l = some m) : m ∈ l ∧ ∀ x ∈ l, x ≤ m := by
+  cases l with
+  | nil => simp [maxList] at h
+  | cons a xs =>
+    simp only [maxList, Option.some.injEq] at h
+    obtain ⟨h1, h2, h3⟩ := foldl_max_spec xs a
+    rw [h] at h1 h2 h3
+    constructor
+    · rcases h1 with h | h
+      · rw [h]; exact List.mem_cons_self
+      · exact List.mem_cons_of_mem _ h
+    · intro x hx
+      rcases List.mem_cons.mp hx with rfl | hx
+      · exact h2
+      · exact h3 x hx
+
+theorem maxList_perm {xs ys : List ℚ} (h : xs.Perm ys) : maxList xs = maxList ys := by
+  by_cases hx : xs = []
+  · subst hx; rw [h.nil_eq]
+  · have hy : ys ≠ [] := fun hy => hx (by rw [hy] at h; exact h.eq_nil)
+    obtain ⟨m1, e1⟩ : ∃ m, maxList xs = some m := by cases xs with | nil => exact absurd rfl hx | cons a t => exact ⟨_, rfl⟩
+    obtain ⟨m2, e2⟩ : ∃ m, maxList ys = some m := by cases ys with | nil => exact absurd rfl hy | cons a t => exact ⟨_, rfl⟩
+    obtain ⟨a1, a2⟩ := maxList_spec xs m1 e1
+    obtain ⟨b1, b2⟩ := maxList_spec ys m2 e2
+    have : m1 = m2 := le_antisymm (b2 m1 (h.mem_iff.mp a1)) (a2 m2 (h.mem_iff.mpr b1))
+    rw [e1, e2, this]
+
+/-- **the bounding box does not depend on the order of the members** -/
+theorem bbox_perm {xs ys : List (ℚ × ℚ)} (h : xs.Perm ys) : lower xs = lower ys ∧ upper xs = upper ys :=
+  ⟨minList_perm (h.map _), maxList_perm (h.map _)⟩
+
+/-- **filtering by radius keeps exactly the strictly larger droplets, in order** (a droplet with radius
+equal to the minimum — e.g. a vanished one for `min_radius = 0` — is removed) -/
+theorem keepLarger_spec (rs : List ℚ) (m x : ℚ) : x ∈ keepLarger rs m ↔ x ∈ rs ∧ m < x := by
+  unfold keepLarger; simp
+
+theorem keepLarger_sublist (rs : List ℚ) (m : ℚ) : (keepLarger rs m).Sublist rs := List.filter_sublist
+
+
+/-! ### nearest-time lookup -/
+
+/-- `b` is the first index of `seen` whose distance to `t` is minimal, `v` that distance -/
+def Nearest (t : ℚ) (seen : List ℚ) (b : ℕ) (v : ℚ) : Prop :=
+  b < seen.length ∧ v = absR (seen.getD b 0 - t) ∧
+    (∀ j, j < seen.length → v ≤ absR (seen.getD j 0 - t)) ∧ (∀ j, j < b → v < absR (seen.getD j 0 - t))
+
+theorem nearest_fold (t : ℚ) (xs : List ℚ) : ∀ (seen : List ℚ) (b : ℕ) (v : ℚ), seen ≠ [] → Nearest t seen b v →
+    let r := xs.foldl (fun (acc : ℕ × ℕ × ℚ) y =>
+      let i := acc.1 + 1
+      if absR (y - t) < acc.2.2 then (i, i, absR (y - t)) else (i, acc.2.1, acc.2.2)) (seen.length - 1, b, v)
+    Nearest t (seen ++ xs) r.2.1 r.2.2 := by
+  induction xs with
+  | nil => intro seen b v _ h; simpa using h
+  | cons y xs ih =>
+    intro seen b v hne h
+    obtain ⟨h1, h2, h3, h4⟩ := h
+    have hlen : 0 < seen.length := List.length_pos_iff.mpr hne
+    have hidx : seen.length - 1 + 1 = seen.length := by omega
+    simp only [List.foldl_cons]
+    have hgetold : ∀ j, j < seen.length → (seen ++ [y]).getD j 0 = seen.getD j 0 := by
+      intro j hj
+      rw [List.getD_eq_getElem?_getD, List.getD_eq_getElem?_getD, List.getElem?_append_left hj]
+    have hgetnew : (seen ++ [y]).getD seen.length 0 = y := by
+      rw [List.getD_eq_getElem?_getD, List.getElem?_append_right (le_refl _)]; simp
+    have hne' : seen ++ [y] ≠ [] := by simp
+    have hlen' : (seen ++ [y]).length - 1 = seen.length := by simp
+    by_cases hy : absR (y - t) < v
+    · simp only [hy, if_true, hidx]
+      have hinv : Nearest t (seen ++ [y]) seen.length (absR (y - t)) := by
+        refine ⟨by simp, by rw [hgetnew], ?_, ?_⟩
+        · intro j hj
+          simp only [List.length_append, List.length_cons, List.length_nil] at hj
+          by_cases hjl : j < seen.length
+          · rw [hgetold j hjl]; exact le_trans hy.le (h3 j hjl)
+          · have : j = seen.length := by omega
+            rw [this, hgetnew]
+        · intro j hj
+          rw [hgetold j hj]; exact lt_of_lt_of_le hy (h3 j hj)
+      have := ih (seen ++ [y]) seen.length (absR (y - t)) hne' hinv
+      rw [hlen'] at this
+      simpa using this
+    · simp only [hy, if_false, hidx]
+      have hinv : Nearest t (seen ++ [y]) b v := by
+        refine ⟨by simp; omega, by rw [hgetold b h1]; exact h2, ?_, ?_⟩
+        · intro j hj
+          simp only [List.length_append, List.length_cons, List.length_nil] at hj
+          by_cases hjl : j < seen.length
+          · rw [hgetold j hjl]; exact h3 j hjl
+          · have : j = seen.length := by omega
+            rw [this, hgetnew]; exact not_lt.mp hy
+        · intro j hj
+          rw [hgetold j (by omega)]; exact h4 j hj
+      have := ih (seen ++ [y]) b v hne' hinv
+      rw [hlen'] at this
+      simpa using this
+
+/-- **Nearest-time lookup returns the first member whose time is nearest to the query** — for ANY list of
+times, sorted or not, with or without repeated values. -/
+theorem nearestIdx_spec (ts : List ℚ) (t : ℚ) (i : ℕ) (h : nearestIdx ts t = some i) :
+    i < ts.length ∧ (∀ j, j < ts.length → absR (ts.getD i 0 - t) ≤ absR (ts.getD j 0 - t)) ∧
+      (∀ j, j < i → absR (ts.getD i 0 - t) < absR (ts.getD j 0 - t)) := by
+  cases ts with
+  | nil => simp [nearestIdx] at h
+  | cons x xs =>
+    simp only [nearestIdx, Option.some.injEq] at h
+    have h0 : Nearest t [x] 0 (absR (x - t)) := by
+      refine ⟨by simp, by simp, ?_, by simp⟩
+      intro j hj
+      have : j = 0 := by simpa using hj
+      subst this; simp
+    have := nearest_fold t xs [x] 0 (absR (x - t)) (by simp) h0
+    simp only [List.length_singleton, Nat.sub_self, List.singleton_append] at this
+    rw [h] at this
+    obtain ⟨a1, a2, a3, a4⟩ := this
+    refine ⟨a1, ?_, ?_⟩
+    · intro j hj; rw [← a2]; exact a3 j hj
+    · intro j hj; rw [← a2]; exact a4 j hj
+
+example : nearestIdx [0, 2, 10, 5] (39/10) = some 3 ∧ nearestIdx [1, 3, 3] 3 = some 1 ∧ nearestIdx [] 1 = none := by
+  decide +kernel
+
+example : keepLarger [0, 2, 0, 3] 0 = [2, 3] ∧ select false [0, 1, 0, 2] = [1, 2] ∧ duration [-2, 0, 5] = 7 := by
+  decide +kernel
 
 end DV.C20
